@@ -48,7 +48,7 @@ impl Property for Occurrences {
     fn decode(&self, t: &mut Tape<'_>) -> OccCase {
         let co = ConvOpts {
             overrides: true,
-            max_depth: 2,
+            max_depth: 3,
             ..ConvOpts::default()
         };
         let spec = gen_conv_spec(t, &co);
@@ -248,12 +248,169 @@ impl Property for Occurrences {
     }
 }
 
+// ------------------------------------------------------------ a global `Set` argument given at several levels
+
+#[derive(Serialize, Deserialize, Hash, Clone, Debug)]
+pub struct GlobalCase {
+    /// depth of the chain `prog sub sub ...` (1..=3 subcommands)
+    pub depth: usize,
+    /// level that defines the global option
+    pub def_level: usize,
+    pub override_self: bool,
+    /// values given for `--glob` per level (several at one level only with override_self)
+    pub given: Vec<Vec<String>>,
+    pub attached: bool,
+}
+
+pub struct GlobalLastWins;
+
+impl Property for GlobalLastWins {
+    type Case = GlobalCase;
+    fn name(&self) -> &'static str {
+        "global-set-last-wins"
+    }
+    fn rule(&self) -> String {
+        "chains prog sub{1..3} with one global Set option defined at level 0..depth and given, with pairwise distinct values, at any          subset of the levels at or below its definition (2-3 times at one level when args_override_self is on; also spelled through          its short, attached or detached); a local flag at every level keeps the levels busy. Oracle: the occurrence written last on          the command line is the final value, at every level of the chain that can see the argument, with source CommandLine; never          given => absent everywhere. Non-trivial: given at two or more levels."
+            .into()
+    }
+    fn budget(&self, tier: Tier) -> Budget {
+        Budget { cases: tier.pick(100_000, 1_000_000), tape_len: 64 }
+    }
+    fn decode(&self, t: &mut Tape<'_>) -> GlobalCase {
+        let depth = t.range(1, 3);
+        let def_level = t.range(0, depth);
+        let override_self = t.chance(1, 3);
+        let mut n = 0;
+        let mut given = Vec::new();
+        for l in 0..=depth {
+            let k = if l < def_level {
+                0
+            } else {
+                match t.weighted(&[3, 4, 1]) {
+                    0 => 0,
+                    1 => 1,
+                    _ => {
+                        if override_self {
+                            t.range(2, 3)
+                        } else {
+                            1
+                        }
+                    }
+                }
+            };
+            given.push(
+                (0..k)
+                    .map(|_| {
+                        n += 1;
+                        format!("v{n}")
+                    })
+                    .collect(),
+            );
+        }
+        GlobalCase { depth, def_level, override_self, given, attached: t.bool() }
+    }
+    fn run(&self, case: &GlobalCase, ctx: &mut Ctx) -> Verdict {
+        use clap::{Arg, ArgAction, Command};
+        let glob = || Arg::new("glob").long("glob").short('g').global(true).action(ArgAction::Set);
+        let mut cmd: Option<Command> = None;
+        for l in (0..=case.depth).rev() {
+            let mut c = Command::new(if l == 0 { "prog".to_owned() } else { format!("sub{l}") })
+                .arg(Arg::new("local").long("local").action(ArgAction::SetTrue));
+            if l == case.def_level {
+                c = c.arg(glob());
+            }
+            if l == 0 {
+                c = c.args_override_self(case.override_self);
+            }
+            if let Some(child) = cmd.take() {
+                c = c.subcommand(child);
+            }
+            cmd = Some(c);
+        }
+        let cmd = cmd.unwrap();
+        let mut argv: Vec<String> = vec!["prog".into()];
+        let mut last: Option<&String> = None;
+        let mut levels_given = 0;
+        for (l, vals) in case.given.iter().enumerate() {
+            if l > 0 {
+                argv.push(format!("sub{l}"));
+            }
+            argv.push("--local".into());
+            for (i, v) in vals.iter().enumerate() {
+                match (case.attached, i % 2) {
+                    (true, 0) => argv.push(format!("--glob={v}")),
+                    (true, _) => argv.push(format!("-g{v}")),
+                    (false, 0) => argv.extend(["--glob".to_owned(), v.clone()]),
+                    (false, _) => argv.extend(["-g".to_owned(), v.clone()]),
+                }
+                last = Some(v);
+            }
+            if !vals.is_empty() {
+                levels_given += 1;
+            }
+        }
+        let m = match catch(|| cmd.try_get_matches_from(&argv)) {
+            Err(p) => return Verdict::Fail(Failure::from_panic(&p)),
+            Ok(Err(e)) => {
+                return Verdict::fail(
+                    format!("global-set:valid-line-rejected:{:?}", e.kind()),
+                    format!("argv {:?} ({case:?}): every repeat is permitted, but clap says: {e}", argv),
+                )
+            }
+            Ok(Ok(m)) => m,
+        };
+        let mut lm = &m;
+        for l in 0..=case.depth {
+            if l >= case.def_level {
+                let got = lm.get_one::<String>("glob");
+                ensure!(
+                    got == last,
+                    "global-set:not-the-last-occurrence",
+                    "argv {:?}: the last occurrence of the global --glob is {:?}, level {l} reports {:?}",
+                    argv,
+                    last,
+                    got
+                );
+                let src = lm.value_source("glob");
+                ensure!(
+                    src == last.map(|_| clap::parser::ValueSource::CommandLine),
+                    "global-set:source",
+                    "argv {:?}: level {l} reports source {:?} for --glob (last occurrence {:?})",
+                    argv,
+                    src,
+                    last
+                );
+            }
+            ensure!(lm.get_flag("local"), "global-set:local-flag-lost", "argv {:?}: level {l} lost its own --local", argv);
+            if l < case.depth {
+                match lm.subcommand() {
+                    Some((n, sm)) if n == format!("sub{}", l + 1) => lm = sm,
+                    other => {
+                        return Verdict::fail(
+                            "global-set:wrong-chain",
+                            format!("argv {:?}: level {l} reports subcommand {:?}", argv, other.map(|x| x.0)),
+                        )
+                    }
+                }
+            }
+        }
+        if levels_given >= 2 {
+            ctx.label("global-given-at-several-levels");
+            ctx.nontrivial();
+        }
+        Verdict::Pass
+    }
+}
+
 pub fn check() -> Check {
     Check {
         id: "C07",
-        parts: vec![Box::new(Gen(Occurrences))],
+        parts: vec![Box::new(Gen(Occurrences)), Box::new(Gen(GlobalLastWins))],
         assumptions: vec![
             "no env/default interplay here (C06); overrides relate flags/options of one level".into(),
+            "across levels only a global Set option is judged (last occurrence wins); how Append / Count globals given at several \
+             levels combine is not pinned down by the statement and is left to C09's agreement rule"
+                .into(),
             "trusted base: the sequential model of ArgAction and Arg::overrides_with as documented".into(),
         ],
     }
